@@ -319,18 +319,22 @@ func ruleCheckConstants(w *World, r *Report) (kc, kn int64) {
 		if !okc {
 			continue
 		}
+		// the edge on which the limit is exceeded returns the error; the test may be written either way round
 		var limit int64
-		switch bo.Op {
-		case token.GTR:
+		errOn := func(k int) bool {
+			ret := blockReturn(b.Succs[k])
+			return ret != nil && returnsCheckErr(ret)
+		}
+		switch {
+		case bo.Op == token.GTR && errOn(0):
 			limit = c
-		case token.GEQ:
+		case bo.Op == token.GEQ && errOn(0):
+			limit = c - 1
+		case bo.Op == token.LEQ && errOn(1) && !errOn(0):
+			limit = c
+		case bo.Op == token.LSS && errOn(1) && !errOn(0):
 			limit = c - 1
 		default:
-			continue
-		}
-		// the exceeding edge must return an error
-		ret := blockReturn(b.Succs[0])
-		if ret == nil || !returnsCheckErr(ret) {
 			continue
 		}
 		if x, okl := lenArg(bo.X); okl {
